@@ -11,14 +11,12 @@ for d in seeded/C*-*/; do
   name=$(basename $d); prop=${name%%-*}
   if ! git -C /repo diff --quiet; then echo "/repo not clean"; exit 2; fi
   git -C /repo apply /verif/$d/patch.diff || { echo "| $name | $prop | patch does not apply |" >> $out; continue; }
-  r=$(timeout 1200 ./check $prop 2>&1 | grep -E "^(VIOLATION|OK)|cannot run" | head -1)
-  git -C /repo checkout -- .
-  case "$r" in
-    VIOLATION*no-failing-input-found) res="VIOLATION (no-failing-input-found)";;
-    VIOLATION*) res="VIOLATION with failing input";;
-    OK*) res="**not detected**";;
-    *) res="$r";;
-  esac
+  r=$(timeout 1200 ./check $prop 2>&1 | grep -E "^(VIOLATION|OK)|cannot run")
+  git -C /repo checkout -- . ; git -C /repo clean -fdq
+  if echo "$r" | grep "^VIOLATION" | grep -qv "no-failing-input-found"; then res="VIOLATION with failing input"
+  elif echo "$r" | grep -q "^VIOLATION"; then res="VIOLATION (no-failing-input-found)"
+  elif echo "$r" | grep -q "^OK"; then res="**not detected**"
+  else res="$(echo "$r" | head -1)"; fi
   echo "| $name | $prop | $res |" >> $out
 done
 echo >> $out
